@@ -471,15 +471,12 @@ def run_bad_scalar(case, col):
         shape_pub = ('02' + '00' * 32) if red == 0 else ec.encode_pub(ec.mul_g(red), True).hex()
         if k.secret == d and k.public_compressed_hex == shape_pub:
             key = K_RANGE
+        elif fmt == 'wif-uncompressed' and d & 0xff == 1 and k.secret == d >> 8 and k.compressed is True:
+            key = K_WIF_01      # the WIF was read as a different (31-byte, compressed) secret; the range question never arose
     except Exception:
         pass
     col.violation(key, 'scalar outside [1, n-1] (%s) imported as %s yields key %s and address %s' % (cls, fmt, getattr(k, 'public_hex', None), a), case,
                   {'public_hex': getattr(k, 'public_hex', None), 'address': a}, 'refusal')
-
-
-def _bad_public_arg(case):
-    enc = bytes.fromhex(case['enc']) if case.get('enc') else None
-    return enc
 
 
 def run_bad_public(case, col):
